@@ -289,6 +289,13 @@ def check_corrupt(case):
     p, mem, tgt = S.build_target(case)
     cor = Corruptor(tgt, case["k"], case["mode"], case["arg"])
     harness.install(cor)
+    # the step budget grows with what the upload and the requests legitimately move (see harness.open_logix / scenario._traffic_bound)
+    try:
+        frag = max(1, getattr(tgt, "tmpl_frag", 480))
+        blobs = sum(len(p.template_blob(u)) // frag + 4 for u in p.data["udts"])
+        harness.CURRENT["budget"] += 3 * (blobs + 4 * len(p.data["tags"]) + 64) + S._traffic_bound(p, case["reqs"])
+    except Exception:
+        pass
     discs += []
     names = [S.render(r) for r in case["reqs"]]
     holder = []
